@@ -11,7 +11,9 @@ def run_dlx(case):
     prim = case["prim"]
     ncols = len(M[0]) if M else 0
     names = None
-    if case.get("named"):
+    if case.get("names") is not None:
+        names = list(case["names"])         # integer names that are not the positions (1-based, permuted)
+    elif case.get("named"):
         names = NAMES[:ncols]
     colnames = names if names else list(range(ncols))
     secondary = [colnames[c] for c in range(ncols) if not prim[c]]
@@ -47,6 +49,124 @@ def run_dlx(case):
         except Exception as ex:  # noqa: BLE001
             events.append({"e": "raise", "what": type(ex).__name__})
     return {"matrix": M, "prim": prim, "events": events, "input": case}
+
+
+def run_dlx_steps(case):
+    """Step level: wrap the module functions _build_links / _cover / _uncover (nothing in the library changes) and, after each
+    call, walk the real link structure: linked headers, each column walked down and up, the size counters."""
+    import solvor.dlx as D
+    M = case["matrix"]
+    prim = case["prim"]
+    ncols = len(M[0]) if M else 0
+    R = len(M)
+    secondary = [c for c in range(ncols) if not prim[c]]
+    ctx = {}
+    steps = []
+    orig = (D._build_links, D._cover, D._uncover)
+
+    def snap(op, c):
+        cols = ctx["cols"]
+        down, up, broken = [], [], False
+        for col in cols:
+            for attr, out in (("down", down), ("up", up)):
+                rows, node, k = [], getattr(col, attr), 0
+                while node is not col and k <= R + 1:
+                    rows.append(node.row + 1)
+                    node = getattr(node, attr)
+                    k += 1
+                broken = broken or node is not col
+                out.append(rows)
+        steps.append({"op": op, "c": c, "active": [i + 1 for i, col in enumerate(cols) if col.left.right is col and col.right.left is col],
+                      "down": down, "up": up, "sizes": [int(col.size) for col in cols], "broken": broken})
+
+    def build(matrix, columns=None, secondary=None):
+        r = orig[0](matrix, columns, secondary)
+        ctx["cols"] = r[1]
+        ctx["idx"] = {id(col): i + 1 for i, col in enumerate(r[1])}
+        if r[0] is not None:
+            snap("build", 0)
+        return r
+
+    def cover(col):
+        orig[1](col)
+        if len(steps) < 600:
+            snap("cover", ctx["idx"].get(id(col), 0))
+
+    def uncover(col):
+        orig[2](col)
+        if len(steps) < 600:
+            snap("uncover", ctx["idx"].get(id(col), 0))
+    D._build_links, D._cover, D._uncover = build, cover, uncover
+    try:
+        kw = {"find_all": case.get("find_all", True)}
+        if secondary:
+            kw["secondary"] = secondary
+        if case.get("max_solutions"):
+            kw["max_solutions"] = case["max_solutions"]
+        try:
+            r = D.solve_exact_cover([list(row) for row in M], **kw)
+            status = r.status.name
+        except Exception as ex:  # noqa: BLE001
+            status = "raise:" + type(ex).__name__
+    finally:
+        D._build_links, D._cover, D._uncover = orig
+    if not steps or len(steps) >= 600:
+        return {"skipped": True}
+    complete = status == "INFEASIBLE" or (status == "OPTIMAL" and kw["find_all"] and not case.get("max_solutions"))
+    return {"matrix": M, "ncols": ncols, "steps": steps, "status": status, "complete": bool(complete), "input": case}
+
+
+def _adjacent_removal(steps):
+    """coverage criterion for the link level: some cover removed two vertically adjacent nodes from one column - the case in which
+    the order of re-linking in _uncover matters"""
+    n = 0
+    for a, b in zip(steps, steps[1:]):
+        if b["op"] != "cover":
+            continue
+        for before, after in zip(a["down"], b["down"]):
+            gone = set(before) - set(after)
+            if len(gone) >= 2 and any(x in gone and y in gone for x, y in zip(before, before[1:])):
+                n += 1
+    return n
+
+
+def run_dlx_steps_bulk(case):
+    """Coverage-directed generation for the link level: many random matrices; executions in which a cover removes vertically
+    adjacent nodes (rare on small matrices) are kept, the rest is sampled.  Only kept executions go to TLC."""
+    rng = random.Random(case["seed"])
+    kept, cov = [], {"calls": 0, "adjacent_removals": 0, "kept": 0}
+    for c in gen_steps(rng, case["count"], big=True):
+        c["find_all"], c["max_solutions"] = True, 0
+        tr = run_dlx_steps(c)
+        if "steps" not in tr:
+            continue
+        cov["calls"] += 1
+        k = _adjacent_removal(tr["steps"])
+        cov["adjacent_removals"] += k > 0
+        if (k >= 2 and len(kept) < case.get("cap", 60)) or rng.random() < 0.002:
+            tr["coverage"] = "AdjacentRemoval" if k else "sample"
+            kept.append(tr)
+    cov["kept"] = len(kept)
+    return {"kept": kept, "cov": cov}
+
+
+def gen_steps(rng, n, big=False):
+    """small matrices for the step level (the whole cover/uncover history is logged)"""
+    out = []
+    for _ in range(n):
+        if big or rng.random() < 0.35:      # deeper nesting of covers
+            R, C = rng.randint(5, 9), rng.randint(4, 7)
+            dens = rng.choice([0.3, 0.4, 0.5])
+        else:
+            R, C = rng.randint(1, 7), rng.randint(1, 6)
+            dens = rng.choice([0.3, 0.45, 0.6])
+        M = [[1 if rng.random() < dens else 0 for _ in range(C)] for _ in range(R)]
+        if rng.random() < 0.3 and R > 1:
+            M[rng.randrange(R)] = list(M[rng.randrange(R)])
+        pr = rng.random()
+        prim = [True] * C if pr < 0.5 else [rng.random() < 0.7 for _ in range(C)]
+        out.append({"matrix": M, "prim": prim, "find_all": rng.random() < 0.7, "max_solutions": rng.choice([0, 0, 0, 1, 2])})
+    return out
 
 
 CALLS = [
@@ -99,4 +219,7 @@ def gen_random(rng, n):
         prim = [True] * C if pr < 0.4 else ([False] * C if pr < 0.45 else [rng.random() < 0.7 for _ in range(C)])
         out.append({"matrix": M, "prim": prim, "calls": CALLS, "named": rng.random() < 0.4,
                     "tuples": rng.random() < 0.2, "pass_empty_secondary": rng.random() < 0.3})
+        r = rng.random()
+        if r < 0.3:       # integer column names overlapping the positions without being the positions
+            out[-1]["names"] = list(range(1, C + 1)) if r < 0.1 else (rng.sample(range(C), C) if r < 0.25 else rng.sample(range(C + 2), C))
     return out
